@@ -365,6 +365,7 @@ def run_contiguity(f, P):
 
                 def __init__(self):
                     self.res = {}
+                    self.sums = {}
 
                 def on_switch(self, ip, fr, tok, tags, bi, term, target):
                     dpl = term['d'].get('pl') if term['d']['k'] in ('copy', 'move') else None
@@ -404,6 +405,13 @@ def run_contiguity(f, P):
                         ok = 'Z' in tok or 'ADJ' in tok
                         self.res[bi] = self.res.get(bi, True) and ok
                         return tok - {'Z', 'ADJ'}
+                    # the count of the run added to something else (a sum handed to a release, a second counter): the same
+                    # condition - the run and the further piece are one range only if the piece was found adjacent
+                    if l not in inc_srcs and rv['k'] == 'bin' and rv.get('op', '').startswith('Add') and any(
+                            o['k'] in ('copy', 'move') and not o['pl']['p'] and _through_copy(fr.body, defs, o['pl']['l']) == n
+                            for o in rv['ops']) and not any(o['k'] == 'const' for o in rv['ops']):
+                        ok = 'Z' in tok or 'ADJ' in tok
+                        self.sums[bi] = self.sums.get(bi, True) and ok
                     return tok
             d = D()
             ip = Interp(P, d)
@@ -414,6 +422,11 @@ def run_contiguity(f, P):
                             ('%s grows only on the first piece or after the piece was compared with the end of the run' % b.lname(n)) if ok else
                             ('%s grows by a further piece on a path on which the piece was not compared with the end of the run (%s, %s)' % (
                                 b.lname(n), b.lname(a), b.lname(n)))))
+            for bi, ok in sorted(d.sums.items()):
+                if not ok:
+                    out.append((short(b.path), b.where(bi), False,
+                                '%s is summed with the length of a further piece on a path on which that piece was not found adjacent to the '
+                                'run (%s, %s): the sum describes one range, but the two pieces are apart' % (b.lname(n), b.lname(a), b.lname(n))))
     return out
 
 
